@@ -272,6 +272,9 @@ func (e *evalCtx) poly(t *Term) Poly {
 	for _, a := range t.Args {
 		parts = append(parts, e.canon(a))
 	}
+	if t.Op == "symcall" {
+		sort.Strings(parts)
+	}
 	s := t.Op + ":" + t.Val
 	if len(parts) > 0 {
 		s += "(" + strings.Join(parts, ",") + ")"
